@@ -162,6 +162,13 @@ def scan_hot_lines(prefix: str):
             # every module-level variable (for subscript stores into module-level arrays / buffers from inside functions)
             module_vars = {t.id for n in tree.body if isinstance(n, (ast.Assign, ast.AnnAssign)) and n.value is not None
                            for t in (n.targets if isinstance(n, ast.Assign) else [n.target]) if isinstance(t, ast.Name)}
+            # names bound by module-level imports (for `with mod.ctx():` — a process-wide context such as
+            # warnings.catch_warnings / np.errstate / dask.config.set is entered and later left)
+            imported = set()
+            for n in tree.body:
+                if isinstance(n, (ast.Import, ast.ImportFrom)):
+                    for al in n.names:
+                        imported.add((al.asname or al.name).split(".")[0])
             lines = set()
 
             def is_shared(node):
@@ -185,6 +192,16 @@ def scan_hot_lines(prefix: str):
                             for tt in (t.elts if isinstance(t, (ast.Tuple, ast.List)) else [t]):
                                 if isinstance(tt, ast.Name):
                                     local_names.add(tt.id)
+                for n in ast.walk(fdef):
+                    if isinstance(n, ast.With):
+                        for it in n.items:
+                            c = it.context_expr
+                            if isinstance(c, ast.Call):
+                                f = c.func
+                                while isinstance(f, ast.Attribute):
+                                    f = f.value
+                                if isinstance(f, ast.Name) and f.id in imported and f.id not in local_names:
+                                    lines.add(n.lineno)
                 # locals that are plain aliases of a module-level variable:  x = MODVAR  (x bound nowhere else in the function)
                 bound = {}
                 for n in ast.walk(fdef):
